@@ -798,7 +798,7 @@ func setup(p params, sk signState, provAlgs []string) (*refstore.Store, *opfix.F
 	case "custom": // ... of the custom header only
 		issuerFn = op.IssuerFromForwardedOrHost("", op.WithIssuerFromCustomHeaders(customFwdHeader))
 	}
-	if pol := (refstore.TEPolicy{Subject: p.tePolSub, EmptyScopes: p.tePolEmpty}); pol != (refstore.TEPolicy{}) {
+	if pol := (refstore.TEPolicy{Subject: p.tePolSub, EmptyScopes: p.tePolEmpty}); pol.Subject != "" || pol.EmptyScopes {
 		// a storage whose ValidateTokenExchangeRequest retargets the request (refstore/ext_c15.go)
 		tePolicies[st] = pol
 		f, err = opfix.NewWithStorage(st, st.AsStorageTEPolicy(pol), o, issuerFn)
